@@ -18,7 +18,7 @@ import (
 	wc "verif/harness/walkcase"
 )
 
-var names = []string{"a", "b", "a.b", "-x", "sp ace", "é", "node_modules", "ab", "f", "g"}
+var names = []string{"a", "b", "a.b", "-x", "sp ace", "é", "node_modules", "ab", "f", "g", "..data", "...", ".h"}
 var rxPool = []string{`^a$`, `b`, `node_modules`, `^(a|b)/`, `\.b$`, `^-x`, `^\.$`, `é`, `^a/ab$`}
 var glPool = []string{`a`, `*/b`, `**/node_modules`, `a*`, `{a,b}`, `sp ace`, `**/ab`, `.`, `a/*`}
 
@@ -159,6 +159,7 @@ func (g *gen) newCase() *wc.Case {
 		}
 	}
 	c.Skip = g.pick(allDirs, 2)
+	c.ABS = r.Intn(3) == 0
 	if r.Intn(4) == 0 {
 		c.HasRx, c.RxSrc = true, rxPool[r.Intn(len(rxPool))]
 	}
@@ -228,6 +229,19 @@ func (g *gen) newCase() *wc.Case {
 						f.Read[d] = map[int]bool{}
 					}
 					f.Read[d][r.Intn(5)] = true
+				}
+			}
+		}
+	}
+	if g.mode == "mixed" || g.mode == "faults" {
+		// kind of the injected errors; a NOT-EXIST answer for a .gitignore is no fault at all (the file is simply absent)
+		c.EK = r.Intn(3)
+		if c.EK == 2 {
+			for i := range c.Roots {
+				for k := range c.Roots[i].F.Open {
+					if k == ".gitignore" || strings.HasSuffix(k, "/.gitignore") {
+						delete(c.Roots[i].F.Open, k)
+					}
 				}
 			}
 		}
